@@ -7,8 +7,9 @@
       tracing/src/lib.rs             MacroCallsite::{interest, register, is_enabled}  (REGISTERING CAS; loser = sometimes)
       tracing/src/macros.rs          the guard of event!/span!:  level_enabled! && interest != never && is_enabled
       tracing-core/src/metadata.rs   MAX_LEVEL load (LevelFilter::current) / swap (set_max)
-      tracing-core/src/dispatch.rs   Dispatch::new, set_global_default (CAS / store / store), Registrar::upgrade
-      tracing-subscriber/src/reload.rs  Handle::{reload, modify}: upgrade weak; write-lock; assign; unlock; rebuild
+      tracing-core/src/dispatch.rs   Dispatch::new, set_global_default (PSgCas / PSgStore / PSgInit), Registrar::upgrade
+      tracing-subscriber/src/reload.rs  Handle::{reload, modify}: upgrade the weak reference to the CELL's own Arc ([cell_live]: the
+                                     collector, or a reload still in flight, keeps it alive); write-lock; assign; unlock; rebuild
 
     One constructor of [pc] per program point that sits immediately BEFORE a shared-memory access (atomic load /
     store / CAS / swap, Arc upgrade, lock acquire, lock release); [step] performs that one access plus the
@@ -24,7 +25,9 @@
         once GLOBAL_INIT = INITIALIZED); SCOPED_COUNT and the thread-local cache of the global default are not
         modelled (they select a path, not a result, outside finding F1's class);
       - the intrusive list is a [list csid] (newest first); a walker's position is the suffix it still has to
-        visit.  This is exact as long as no registration is pushed twice (proved: [Corrupt] is unreachable);
+        visit.  This is exact as long as no registration is pushed twice (proved: [Corrupt] is unreachable).  The `next` link
+        of a registration being pushed is the snapshot [l0] of [PRgPushCas]: (re)linked to the list just seen on entry and on
+        EVERY retry, as the source's loop does (pinned by C04_source_push_shape);
       - the RwLock's reader count is the list of reader thread ids (count = length);
       - ghost state (never read by [step] to decide behaviour): [st_olds]/[st_cleaning]/[st_epoch], [th_eg],
         the [old] component of [KReload], the snapshot [l0] in [PRgPushCas], and the log. *)
